@@ -481,7 +481,7 @@ theorem fromJson_fields (b : Back V) (j : Option (AL V)) :
     · split <;> simp
 
 theorem backInv_fromJson {g : Bool} {b : Back V} {m : AL V} (h : BackInv g b)
-    (hm : g = true → allRep m) : BackInv g (b.fromJson (SData.toJson m)).1 := by
+    (_hm : g = true → allRep m) : BackInv g (b.fromJson (SData.toJson m)).1 := by
   obtain ⟨hn, _, _, hd⟩ := fromJson_fields b (SData.toJson m)
   refine ⟨?_, by rw [hn]; exact h.ndN, ?_, by rw [hn]; exact h.repN, by rw [hn]; exact h.noSid, by rw [hn]; exact h.noNid⟩
   · rw [hd]
